@@ -524,6 +524,7 @@ class NPProxy:
             a[...] = 0
             a = a.view(SymArr)
             a._real_only = _is_real_dtype(dtype)
+            a._int_only = _is_int_dtype(dtype)
             return a
         return np.zeros(shape, dtype=dtype, **kw)
 
@@ -921,6 +922,18 @@ def _int_typed(o):
     if isinstance(o, Sym):
         return bool(o.is_int)
     return isinstance(o, (int, np.integer, bool, np.bool_, SymB))
+
+
+def _is_int_dtype(dtype):
+    """an integer element type was requested (assignments truncate)"""
+    if dtype is None:
+        return False
+    if isinstance(dtype, SymDType):
+        return dtype.sym_kind == 'i'
+    try:
+        return np.dtype(dtype).kind in 'iub'
+    except TypeError:
+        return False
 
 
 def _is_real_dtype(dtype):
